@@ -872,5 +872,10 @@ V('C11', 'optimizer-kept-when-unchanged-only', 'silent', '', 'set_backend keeps 
   ('src/pyhf/tensor/manager.py', "    # set new backend\n    this.state['current'] = (new_backend, new_optimizer)\n", "    # set new backend\n    if not optimizer_changed:\n        new_optimizer = this.state['current'][1]\n    this.state['current'] = (new_backend, new_optimizer)\n"))
 V('C11', 'optimizer-equality-only', 'silent', '', 'optimizers equal when maxiter and verbose agree (set_backend installs the new object regardless)',
   ('src/pyhf/optimize/mixins.py', '    def _internal_minimize(\n        self,\n        func,\n', '    def __eq__(self, other):\n        if type(self) is not type(other):\n            return NotImplemented\n        return all(getattr(self, setting) == getattr(other, setting) for setting in OptimizerMixin.__slots__)\n\n    __hash__ = object.__hash__\n\n    def _internal_minimize(\n        self,\n        func,\n'))
+V('C14', 'test-stat-names-case-insensitive', 'fire', 'C14.R2', 'statistic names looked up case-insensitively; the toy calculator compares the raw name',
+  ('src/pyhf/infer/utils.py', '        return _mapping[name]\n', '        return _mapping[str(name).lower()]\n'))
+V('C14', 'test-stat-names-case-insensitive-everywhere', 'silent', '', 'statistic names looked up case-insensitively and the toy calculator compares the lower-cased name',
+  ('src/pyhf/infer/utils.py', '        return _mapping[name]\n', '        return _mapping[str(name).lower()]\n'),
+  ('src/pyhf/infer/calculators.py', "            1.0 if self.test_stat == 'q0' else 0.0,\n", "            1.0 if str(self.test_stat).lower() == 'q0' else 0.0,\n"))
 V("C13", "code4-exponent-mask-strict", "fire", "C13.R3", "code 4 takes exponent 1 (a constant) exactly at |alpha| = alpha0",
   ("src/pyhf/interpolators/code4.py", "            exponents >= self.__alpha0, exponents, self.ones", "            exponents > self.__alpha0, exponents, self.ones"))
